@@ -35,4 +35,10 @@ TEXT = {
         "level_text": "Generated-input search: requests of both kinds are built with the library constructors for independently drawn named-provider and signing keys of all four key types, then left alone or altered (envelope key swap, payload type / payload / signature byte flips through the protobuf, raw bit flips, truncation, foreign domain with the right payload type, cross-feeding); the reader must accept exactly when signer = named provider and nothing was semantically altered, and accepted requests must return the fields they were built from.",
         "level_note": "Trusted: libp2p's record.Seal / protobuf codec used by the harness to build alterations; a raw bit flip that leaves the four parsed envelope fields unchanged is not counted as an alteration.",
     },
+    "C05": {
+        "engine": "h23",
+        "technique": "property-based testing (rapid): sign/verify round trip, single-value and envelope-level mutation, key-assignment predicate",
+        "level_text": "Generated-input search: advertisements over all optional parts and 0..4 extended providers are signed with the library (ad signer = provider or separate publisher key, all four key types), optionally mutated once (each signed value, key/payload/signature bytes of any envelope through the protobuf, a raw bit flip, an entry signed by a key other than the named identity's, the main entry re-signed by a key other than the ad signer's), passed through none/DAG-JSON/DAG-CBOR, and VerifySignature must succeed with the signer's ID exactly when nothing was altered, the main provider is listed and all entries are correctly keyed.",
+        "level_note": "Trusted: libp2p record.Seal and the envelope protobuf used to build alterations. One value is changed per case (the payload concatenates values without delimiters; the property excludes neighbouring simultaneous changes).",
+    },
 }
